@@ -279,8 +279,21 @@ def run(ctx, idx):
         kws = {k.arg: k.value for k in c.keywords if k.arg}
         pos = list(c.args)
         a_nodes = [pos[0] if len(pos) > 0 else kws.get("varname"), pos[1] if len(pos) > 1 else kws.get("datatype")]
-        a = [K.src(K.expand(fi, x)) if x is not None else "" for x in a_nodes]
-        fv = K.src(K.expand(fi, kws["fill_value"]))
+        par = {}
+        for n in own_nodes(fi.node):
+            if isinstance(n, ast.For) and any(c is x for x in ast.walk(n)):
+                par = K.zip_parallel(fi, n)
+                if par and isinstance(n.target, ast.Tuple):
+                    loopvar = n.target.elts[0].id
+
+        def resolved(x):
+            x = K.expand(fi, x)
+            if isinstance(x, ast.Name) and x.id in par:
+                return K.src(par[x.id])
+            return K.src(x)
+
+        a = [resolved(x) if x is not None else "" for x in a_nodes]
+        fv = resolved(kws["fill_value"])
         ok = loopvar is not None and len(a) >= 2 and a[0] == "%s.result_name" % loopvar and a[1].startswith("%s.result.dtype" % loopvar) and fv == "%s.result.fill_value" % loopvar
         ctx.ob("C18.d", con, d.module.rel, c.lineno, ok, "name, dtype and fill value all come from the result being written" if ok else "name/dtype/fill value do not all come from the same result: createVariable(%s, fill_value=%s)" % (", ".join(a[:2]), fv))
     # ---- e
